@@ -133,11 +133,14 @@ def run(seed, tier, lean) -> Result:
         cases.append((spec, inst))
     # the real model decides the final names (renaming); read them back before asking the Lean model
     from ..langgen import build_lang, build_model
+    names0 = {}          # third column: the names the asset objects were constructed with (the generated `add_asset` renames itself)
     for spec, inst in cases:
         if any(a['name'] is None or a['name'].startswith(('A', 'T')) for a in inst['assets']):
             try:
+                orig = [a['name'] for a in inst['assets']]
                 _, fac = build_lang(spec); _, byid = build_model(fac, inst)
                 for a in inst['assets']: a['name'] = str(byid[a['id']].name)
+                names0[id(inst)] = orig
             except Exception:
                 for a in inst['assets']:
                     if a['name'] is None: a['name'] = f"{a['type']}:{a['id']}"
@@ -159,6 +162,7 @@ def run(seed, tier, lean) -> Result:
         done, v = guarded(res, check_case, spec, inst, mo, churn_seed=(seed * 1000003 + i) if i % 3 != 1 else None, keep=keep)
         if not done: continue
         if v is None and model is not None and 'im' in keep:
+            if id(inst) in names0: keep['names0'] = names0[id(inst)]; res.bump('generated_code_models_named_by_add_asset')
             third.append((spec, inst, keep.pop('im'), dict(keep, _replay={'churn_seed': (seed * 1000003 + i) if i % 3 != 1 else None})))
         if v is not None and i % 3 != 1: v.replay['churn_seed'] = seed * 1000003 + i
         types = {a['type'] for a in inst['assets']}
@@ -186,7 +190,13 @@ def genexec_measure(seed: int, n: int) -> dict:
     for i in range(n):
         r = random.Random(rnd.getrandbits(48))
         spec = LangGen(r, knobs={'exist_w': 3}).gen()
-        cases.append((spec, gen_model(r, spec, colon_names=(i % 3 == 0)), (seed * 1000003 + i) if i % 3 != 1 else None, 0.8))
+        inst = gen_model(r, spec, colon_names=(i % 3 == 0))
+        if i % 3 == 1:
+            pool = ['A', 'A', 'A:2', None, None]
+            for a in inst['assets']:
+                other = r.choice(inst['assets'])
+                a['name'] = r.choice(pool + [f"{other['type']}:{other['id']}", f"A:{other['id']}"])
+        cases.append((spec, inst, (seed * 1000003 + i) if i % 3 != 1 else None, 0.8))
     return genexec.generate_measure(cases, edges='exact')
 
 def replay(path):
